@@ -182,6 +182,54 @@ func checkC05(c *Ctx) {
 		c.Check(ok && armed, "C05.1", "timer event: handled by OnLocalTimeout exactly for the current view", p.FuncPos(startT),
 			"the timer adds TimeoutEvent{View: view at arming time}; the handler calls OnLocalTimeout under state.View() == event.View", "handler gate: "+boolStr(ok)+", event carries the arming view: "+boolStr(armed))
 	}
+	// C05.6 a proposal for a view the replica has not reached yet is kept until the next view change, not dropped
+	for _, h := range p.registeredHandlers(namedType(p, "", "ProposeMsg")) {
+		if funcPkgPath(h) != modPath+"/protocol/synchronizer" {
+			continue
+		}
+		fh := NewFlow(p, h)
+		delay := p.Func("core/eventloop", "DelayUntil")
+		isDelay := func(in ssa.Instruction) bool {
+			call, ok := in.(*ssa.Call)
+			if !ok || call.Call.StaticCallee() == nil {
+				return false
+			}
+			cal := call.Call.StaticCallee()
+			return cal.Origin() == delay && len(cal.TypeArgs()) == 1 && cal.TypeArgs()[0].String() == modPath+".ViewChangeEvent"
+		}
+		// from every edge that establishes localView < proposalView, a return is reachable only through DelayUntil
+		// (the far-future drop, proposalView > localView+alpha, is the stated exception)
+		found, bad := false, ""
+		for _, b := range h.Blocks {
+			for _, s := range b.Succs {
+				for _, f := range fh.edgeFacts(b, s) {
+					if f.Op == "<" && strings.HasPrefix(f.L, "(*hs/protocol.ViewStates).View(") && strings.HasPrefix(f.R, kBlockView) {
+						found = true
+						if w := reachAvoidBlock(s, isReturn, isDelay); w != nil {
+							bad = p.InstrPos(w)
+						}
+					}
+				}
+			}
+		}
+		var argOK bool
+		eachInstr(h, func(in ssa.Instruction) {
+			if isDelay(in) {
+				call := in.(*ssa.Call)
+				k := fh.K.Key(call.Call.Args[1])
+				argOK = k == "p0" || k == "*&[p0]" || strings.HasSuffix(k, "[p0]")
+				if mi, ok := call.Call.Args[1].(*ssa.MakeInterface); ok {
+					kk := fh.K.Key(mi.X)
+					argOK = kk == "p0" || strings.Contains(kk, "p0")
+				}
+			}
+		})
+		c.Check(found && bad == "" && argOK, "C05.6", "ProposeMsg handler: early proposals are deferred to the next view change", p.FuncPos(h),
+			"when the proposal's view is ahead of the local view (within the drift limit) the handler always reaches DelayUntil[ViewChangeEvent](proposal)",
+			"a proposal ahead of the local view can be dropped (return at "+bad+" without deferring it): a replica that lags by one view never votes")
+	}
+	c.importFrom(checkC07, "C05.7", "C07.4", "C07.6")
+
 	// C05.4 / C05.5 imported
 	c.importFrom(checkC08, "C05.4", "C08.5")
 	c.importFrom(checkC08, "C05.5", "C08.3")
